@@ -237,7 +237,7 @@ class EvInst:
     """letter = (trig, bus.adr, bus.we, bus.dat_w, bus.re)"""
 
     def __init__(self, kinds, dw, ordering="big", masks="all", reads=True, disciplined=True, tag="", trigs=None,
-                 extra=True):
+                 extra=True, en_masks=None):
         self.kinds = list(kinds)
         self.top = EvTop(self.kinds, dw, ordering)
         self.netlist = Netlist(self.top)
@@ -258,7 +258,9 @@ class EvInst:
         for reg in (1, 2):
             for w in range(v.nw):
                 nb = v.word_bits(w)
-                if masks == "all":
+                if reg == 2 and en_masks is not None:
+                    ms = [m & ((1 << nb) - 1) for m in en_masks]
+                elif masks == "all":
                     ms = range(1 << nb)
                 elif masks == "onehot":
                     ms = sorted({0, (1 << nb) - 1} | {1 << j for j in range(nb)}) if reg == 1 else [0, (1 << nb) - 1]
